@@ -278,6 +278,12 @@ pub proof fn ax_pow_mod_mul(b: int, e1: int, e2: int, n: int)
     ensures pow_mod(pow_mod(b, e1, n), e2, n) == pow_mod(b, e1 * e2, n),
 { admit(); }
 
+/// power of a product
+pub proof fn ax_pow_mod_prod(a: int, b: int, e: int, n: int)
+    requires n > 0, e >= 0 || (invertible(a, n) && invertible(b, n)),
+    ensures pow_mod(a * b, e, n) == (pow_mod(a, e, n) * pow_mod(b, e, n)) % n,
+{ admit(); }
+
 pub proof fn ax_pow_mod_base_mod(b: int, e: int, n: int)
     requires n > 0,
     ensures pow_mod(b % n, e, n) == pow_mod(b, e, n),
